@@ -906,6 +906,10 @@ class C18(Check):
                 cfg_files[path] = dict(content)
                 # CLI options, overlapping the config on purpose
                 overlap = [d for d in cdests if rng.random() < 0.6]
+                if overlap and rng.random() < 0.25:
+                    # an explicit null: the config says "nothing" for an
+                    # option the command line gives a value to
+                    content[rng.choice(overlap)] = None
                 cli, _ = alpha.gen_argv(rng, 4, exclude=[
                     d for d in cdests if d not in overlap])
                 ops.append({"op": "run_c", "app": app, "sub": sub,
